@@ -68,7 +68,9 @@ def analyse(cases, want_model=True):
         a = Analysis(cid, sh, text, rec)
         out[cid] = a
         if "tree" in rec and want_model:
-            for what in ("validate", "rx", "compile"):
+            for what in ("validate", "rx", "compile", "spec"):
+                if what == "spec" and "raw" not in rec:
+                    continue  # the meaning is defined for accepted grammars only
                 reqs.append(f"{what} {sh} {rec['tree']}")
                 plan.append((a, what, None))
         if "raw" in rec:
@@ -101,6 +103,12 @@ def analyse(cases, want_model=True):
             if "raw" in pair:
                 reqs.append(f"equiv {wire(pair['raw'])} {wire(pair['min'])}"); plan.append((a, f"sub{k}:raw~min", None))
                 reqs.append(f"minimal {wire(pair['min'])}"); plan.append((a, f"sub{k}:minimal", None))
+        sp = a.model.get("spec", "")
+        if sp.startswith("ok "):
+            a.wspec = sp[3:].split(" ## ")[0]
+            reqs.append(f"equiv {a.wraw} {a.wspec}"); plan.append((a, "spec:raw", None))
+            if a.wmin is not None:
+                reqs.append(f"equiv {a.wmin} {a.wspec}"); plan.append((a, "spec:min", None))
         m = a.model.get("compile", "")
         if m.startswith("ok "):
             parts = m[3:].split(" ## ")
@@ -121,6 +129,13 @@ def analyse(cases, want_model=True):
                     a.skipped = "language-equal-subwords-interned-apart"
                 else:
                     a.issues.append((what, ans))
+        elif what.startswith("spec:"):
+            if not ans.startswith("equiv"):
+                hs = getattr(a, "subhashes", [])
+                if len(set(hs)) != len(hs):
+                    a.skipped = "language-equal-subwords-interned-apart"
+                else:
+                    a.oracle.append((what, ans))
         elif what.endswith("raw~min"):
             if not ans.startswith("equiv"):
                 a.oracle.append((what, ans))
